@@ -245,6 +245,14 @@ def constant_strain(ctx, lib, kelvin_want):
 
 
 def run(ctx):
+    from . import c10 as _c10
+
+    # beam patch test ('constant axial strain or curvature for beams'): the member frame is orthonormal
+    ctx.attempt(_c10.stored_frame_rule, ctx)
+    from . import c04 as _c04
+
+    # 'prescribing that field on the boundary and solving': beam structures with connections go through the multiplier system
+    ctx.attempt(_c04.lagrange_rule, ctx)
     from ..shared import group_loop_leak_rule as _group_loop_leak_rule
 
     ctx.attempt(_group_loop_leak_rule, ctx, "R1.9", scope=lambda f, _s=("EasyFEA.Simulations",): f.module.name.startswith(_s), min_instances=8)
